@@ -32,6 +32,10 @@ class Harness:
         self.replay = meta.get("replay", "playback")  # playback | trace
         self.kind = meta.get("kind", "proof")         # proof | should_panic
         self.group = meta.get("group", "")
+        # checks=rust: only the panics/assertions of the Rust semantics (explicit MIR asserts, kani::assert, unwinding
+        # assertions); CBMC's own pointer-validity instrumentation is switched off (the code under test is safe Rust)
+        self.checks = meta.get("checks", "all")
+        self.cbmc = meta.get("cbmc", "")  # extra CBMC flags, comma separated (e.g. cbmc=--arrays-uf-always)
         self.bounds = bounds
         self.encodes = encodes
         self.assumes = assumes
@@ -93,7 +97,8 @@ def discover():
 STUB_SETS = {
     "std": ["std::hash::RandomState::new, crate::style::verif_rig_style::stub_rs",
             "console::colors_enabled, crate::verif_common::stub_false",
-            "console::colors_enabled_stderr, crate::verif_common::stub_false"],
+            "console::colors_enabled_stderr, crate::verif_common::stub_false",
+            "<console::Style as std::clone::Clone>::clone, crate::verif_common::plain_style_clone"],
     "width": ["console::measure_text_width, crate::verif_common::stub_width"],
     "widthascii": ["console::measure_text_width, crate::verif_common::stub_width_ascii"],
     "repeat": ["str::repeat, crate::verif_common::stub_repeat"],
@@ -121,6 +126,17 @@ STUB_SETS = {
     "rlctl": ["crate::draw_target::RateLimiter::allow, crate::draw_target::verif_rig_dt::rl_controlled"],
     "posany": ["crate::state::AtomicPosition::allow, crate::draw_target::verif_rig_dt::pos_any"],
     "noweight": ["crate::state::estimator_weight, crate::state::verif_rig_state::weight_any"],
+    "dttcontract": ["crate::draw_target::DrawState::draw_to_term, crate::draw_target::verif_rig_dt::contract_draw_to_term"],
+    "rows1": ["crate::draw_target::visual_line_count, crate::draw_target::verif_rig_dt::rows_are_lines",
+              "crate::draw_target::DrawState::visual_line_count, crate::draw_target::verif_rig_dt::ds_rows_are_lines"],
+    "noremove": ["crate::multi::MultiState::remove_idx, crate::multi::verif_rig_multi::record_remove_idx"],
+    "lineclone": ["<crate::draw_target::LineType as std::clone::Clone>::clone, crate::draw_target::verif_rig_dt::clone_one_letter_line"],
+    "nofloat": ["<f32 as std::fmt::Display>::fmt, crate::verif_common::fmt_f32_marker",
+                "<f64 as std::fmt::Display>::fmt, crate::verif_common::fmt_f64_marker"],
+    "fsrecord": ["crate::style::ProgressStyle::format_state, crate::style::verif_rig_style::recording_format_state"],
+    "finishclone": ["<crate::state::ProgressFinish as std::clone::Clone>::clone, crate::state::verif_rig_state::clone_finish_fm"],
+    "norwlock": ["std::sync::RwLock::write, crate::draw_target::verif_rig_dt::no_rwlock_write",
+                 "std::sync::RwLock::read, crate::draw_target::verif_rig_dt::no_rwlock_read"],
     "norender": ["crate::style::ProgressStyle::format_state, crate::style::verif_rig_style::no_format_state"],
 }
 
@@ -303,6 +319,12 @@ def feature_args(h):
 def run_harness(h, overlay, tdir, logdir, extra=None, tag=""):
     log = os.path.join(logdir, h.name + tag + ".log")
     cmd = ["cargo", "kani", "--harness", h.qual, "--exact", "-Z", "stubbing", "--target-dir", tdir] + feature_args(h) + (extra or [])
+    if h.checks == "rust":
+        cmd += ["-Z", "unstable-options", "--no-memory-safety-checks"]
+    if h.cbmc:
+        if "unstable-options" not in cmd:
+            cmd += ["-Z", "unstable-options"]
+        cmd += ["--cbmc-args"] + h.cbmc.split(",")
     t0 = time.time()
     # the rlimit applies to cargo/kani-compiler/cbmc alike; rustc needs address space too
     rc, to = run_cmd(cmd, overlay, log, h.timeout, max(h.mem, 4))
